@@ -649,9 +649,18 @@ carquet_status_t carquet_page_writer_finalize(
     thrift_write_struct_end(&enc);  /* End DataPageHeader */
     thrift_write_struct_end(&enc);  /* End PageHeader */
 
+    /* A header that could not be written completely must not be used */
+    if (thrift_encoder_has_error(&enc)) {
+        carquet_buffer_destroy(&compressed);
+        return enc.status;
+    }
+
     /* Append compressed data after header */
-    carquet_buffer_append(&writer->page_buffer, compressed.data, compressed.size);
+    status = carquet_buffer_append(&writer->page_buffer, compressed.data, compressed.size);
     carquet_buffer_destroy(&compressed);
+    if (status != CARQUET_OK) {
+        return status;
+    }
 
     *page_data = writer->page_buffer.data;
     *page_size = writer->page_buffer.size;
